@@ -153,6 +153,7 @@ func (r *Reader) decodeG4ScanLine() {
 	// Group 4 fax uses pure 2D encoding for all lines
 	// with no EOL codes or line mode switching
 	r.decode2D()
+	r.alignRow()
 
 	// Check for EOFB (End of Facsimile Block)
 	// EOFB in Group 4 is 24 bits: 000000000001000000000001
@@ -203,6 +204,18 @@ func (r *Reader) decodeG3ScanLine1D() {
 			isWhite = true
 		}
 	}
+	if xpos == r.Columns {
+		r.alignRow()
+	}
+}
+
+// alignRow skips the fill bits which follow a completed row when
+// EncodedByteAlign is set.  The input is loaded bytewise, so validBits%8
+// is the number of bits up to the next byte boundary.
+func (r *Reader) alignRow() {
+	if r.EncodedByteAlign && r.err == nil {
+		r.consumeBits(r.validBits % 8)
+	}
 }
 
 // decodeG3ScanLine2D decodes a Group 3 2D scanline (K > 0).
@@ -217,6 +230,7 @@ func (r *Reader) decodeG3ScanLine2D() {
 		r.decodeG3ScanLine1D()
 	} else { // 2D mode
 		r.decode2D()
+		r.alignRow()
 	}
 }
 
